@@ -95,6 +95,11 @@ UNITS = {
         'complete': False, 'bound': 'empty containers (every span); scalars over 4-byte ASCII inputs', 'timeout': 900,
         'title': 'despan: Array / ArrayOfTables / Table / InlineTable forget their own span (every span); a scalar and the Item around it forget theirs and keep input[span] (bounded: empty containers, 4-byte inputs)',
     },
+    'K14r8': {
+        'engine': 'kani', 'crate': 'toml_edit', 'harnesses': ['k14_rawstring_despan_n8'],
+        'complete': False, 'bound': 'inputs of exactly 8 ASCII bytes, every span inside them', 'timeout': 1200,
+        'title': 'RawString: to_str / despan give exactly input[span] (bounded: 8-byte ASCII inputs)',
+    },
     'K14r': {
         'engine': 'kani', 'crate': 'toml_edit', 'harnesses': ['k14_rawstring_despan'],
         'complete': False, 'bound': 'inputs of exactly 4 ASCII bytes, every span inside them',
@@ -228,7 +233,7 @@ PLAN = {
     'C02': {'quick': ['K2', 'K7s', 'K6t', 'K6d', 'V5', 'V7', 'V8', 'V9', 'V11', 'V12', 'V15'], 'thorough': ['K2', 'K2y', 'K7s', 'K6t', 'K6d', 'V5', 'V7', 'V8', 'V9', 'V11', 'V12', 'V15', 'K5']},
     'C05': {'quick': ['V3', 'K12'], 'thorough': ['V3', 'K12']},
     'C12': {'quick': ['V4', 'V5', 'V6', 'V7', 'V11', 'K2', 'K3q'], 'thorough': ['V4', 'V5', 'V6', 'V7', 'V11', 'K2', 'K2y', 'K3q', 'K3t', 'K3a']},
-    'C14': {'quick': ['K11', 'K14', 'K14r', 'K14s', 'K14d', 'V14'], 'thorough': ['K11', 'K14', 'K14r', 'K14s', 'K14d', 'V14']},
+    'C14': {'quick': ['K11', 'K14', 'K14r', 'K14s', 'K14d', 'V14'], 'thorough': ['K11', 'K14', 'K14r', 'K14r8', 'K14s', 'K14d', 'V14']},
     'C15': {'quick': ['V10', 'V13', 'K8'], 'thorough': ['V10', 'V13', 'K8', 'K8t']},
 }
 
